@@ -25,6 +25,7 @@ _THEOREMS = [
     "Zrnt.Proofs.C12.prevEpoch_beq",
     "Zrnt.Proofs.C12.checkpointWalk_eq",
     "Zrnt.Proofs.C12.attSlotOk_eq_spec",
+    "Zrnt.Proofs.C12.checkAttestationSlot_eq_model",
     "Zrnt.Proofs.C12.epochStartSlot_ok_val",
     "Zrnt.Proofs.C12.att_walk_of_ok",
     "Zrnt.Proofs.C12.att_marks_only_on_accept",
